@@ -181,19 +181,19 @@ Lemma il_check_at i : i < 368 ->
 Proof. intros Hi. pose proof il_check_all as H. rewrite forallb_forall in H.
   specialize (H i ltac:(apply in_seq; lia)). unfold il_check_with in H. fold (il_inv i) in H. fold (il_inv (il_index i)) in H. lia. Qed.
 
-Lemma L1 : forall i, i < il_len il_K -> il_inv (il_index_of il_F1 il_F2 il_K i) = i.
+Lemma il_inv_l : forall i, i < il_len il_K -> il_inv (il_index_of il_F1 il_F2 il_K i) = i.
 Proof. exact (fun i Hi => proj1 (il_check_at i Hi)). Qed.
-Lemma L2 : forall j, j < il_len il_K -> il_inv j < il_len il_K.
+Lemma il_inv_b : forall j, j < il_len il_K -> il_inv j < il_len il_K.
 Proof. exact (fun i Hi => proj1 (proj2 (il_check_at i Hi))). Qed.
-Lemma L3 : forall j, j < il_len il_K -> il_index_of il_F1 il_F2 il_K (il_inv j) = j.
+Lemma il_inv_r : forall j, j < il_len il_K -> il_index_of il_F1 il_F2 il_K (il_inv j) = j.
 Proof. exact (fun i Hi => proj1 (proj2 (proj2 (il_check_at i Hi)))). Qed.
-Lemma K8_368 : 8 * (il_len il_K / 8) = il_len il_K.
+Lemma il_len_mult8 : 8 * (il_len il_K / 8) = il_len il_K.
 Proof. reflexivity. Qed.
 
 Lemma il_index_involutive i : i < 368 -> il_index (il_index i) = i.
 Proof. exact (fun Hi => proj2 (proj2 (proj2 (il_check_at i Hi)))). Qed.
 
-Local Notation G lemma := (lemma il_F1 il_F2 il_K il_inv il_index_bound L1 L2 L3).
+Local Notation G lemma := (lemma il_F1 il_F2 il_K il_inv il_index_bound il_inv_l il_inv_b il_inv_r).
 
 Lemma index_perm_lemma : Permutation (map il_index (seq 0 368)) (seq 0 368).
 Proof. exact (G idx_perm). Qed.
@@ -228,10 +228,10 @@ Proof. exact (G gather_map d l). Qed.
 (** the fill value only matters for inputs shorter than the frame *)
 Lemma interleave_default_irrelevant {A} (d d' : A) l : length l = 368 -> interleave d l = interleave d' l.
 Proof. intros H. rewrite !interleave_map_lemma.
-  apply map_ext_in. intros j Hj. apply in_seq in Hj. apply nth_indep. rewrite H. apply L2. exact (proj2 Hj). Qed.
+  apply map_ext_in. intros j Hj. apply in_seq in Hj. apply nth_indep. rewrite H. apply il_inv_b. exact (proj2 Hj). Qed.
 
 Lemma il_inv_is_index j : j < 368 -> il_inv j = il_index j.
-Proof. intros Hj. rewrite <- (il_index_involutive j Hj) at 1. apply L1. apply il_index_bound. Qed.
+Proof. intros Hj. rewrite <- (il_index_involutive j Hj) at 1. apply il_inv_l. apply il_index_bound. Qed.
 
 Lemma interleave_eq_deinterleave_lemma {A} (d : A) l : interleave d l = deinterleave d l.
 Proof. rewrite interleave_map_lemma, deinterleave_map_lemma.
@@ -239,16 +239,16 @@ Proof. rewrite interleave_map_lemma, deinterleave_map_lemma.
 
 (** packed bytes *)
 Lemma interleave_bytes_bits_lemma b : bytes_bits (interleave_bytes b) = interleave false (bytes_bits b).
-Proof. exact (proj1 (G scatter_bytes_bits K8_368 b)). Qed.
+Proof. exact (proj1 (G scatter_bytes_bits il_len_mult8 b)). Qed.
 
 Lemma deinterleave_bytes_bits_lemma b : bytes_bits (deinterleave_bytes b) = deinterleave false (bytes_bits b).
-Proof. exact (proj1 (G gather_bytes_bits K8_368 b)). Qed.
+Proof. exact (proj1 (G gather_bytes_bits il_len_mult8 b)). Qed.
 
 Lemma interleave_bytes_length_lemma b : length (interleave_bytes b) = 46.
-Proof. exact (proj2 (G scatter_bytes_bits K8_368 b)). Qed.
+Proof. exact (proj2 (G scatter_bytes_bits il_len_mult8 b)). Qed.
 
 Lemma deinterleave_bytes_length_lemma b : length (deinterleave_bytes b) = 46.
-Proof. exact (proj2 (G gather_bytes_bits K8_368 b)). Qed.
+Proof. exact (proj2 (G gather_bytes_bits il_len_mult8 b)). Qed.
 
 Lemma interleave_bytes_all_bytes b : all_bytes (interleave_bytes b).
 Proof. unfold interleave_bytes, interleave_bytes_of. apply fold_assign_bytes; [|apply zeros_bytes].
@@ -279,5 +279,5 @@ Proof. unfold il_index, il_index_of, pi. change il_K with 368%N. change il_F1 wi
 Lemma pi_N_is_pi i : N.to_nat (pi_N (N.of_nat i)) = pi i.
 Proof. unfold pi_N, pi. rewrite N2Nat.inj_mod, N2Nat.inj_add, !N2Nat.inj_mul, Nat2N.id. reflexivity. Qed.
 
-Lemma sites_lemma : Forall (fun s => s = (45, 92, 368)%N) (il_default :: il_sites).
+Lemma il_sites_lemma : Forall (fun s => s = (45, 92, 368)%N) (il_default :: il_sites).
 Proof. repeat constructor. Qed.
